@@ -188,3 +188,43 @@ def rule_f2(repo, res):
                             "character raises UnicodeDecodeError there and is taken for the end of the label, so a "
                             "binary stream (or URL) gives a different result from the same bytes passed to loads()",
                             where=f"pvl/__init__.py:{c.lineno}"))
+
+
+def rule_f2b(repo, res):
+    """F2b: the end-of-stream test of decode_by_char must look at what read() returned, not at decoded text: an
+    incremental decoder returns '' for the lead byte(s) of a multi-byte character, which is not the end of the
+    stream."""
+    fn = repo.function("__init__", "decode_by_char")
+    loops = [n for n in ast.walk(fn) if isinstance(n, ast.For)]
+    res.floor("read loops in decode_by_char", len(loops), 1)
+    for lp in loops:
+        # names (re)assigned from a .decode(...) call inside the loop
+        decoded = set()
+        for n in ast.walk(lp):
+            if isinstance(n, ast.Assign) and isinstance(n.value, ast.Call) and isinstance(n.value.func, ast.Attribute) \
+                    and n.value.func.attr == "decode":
+                for t in n.targets:
+                    if isinstance(t, ast.Name):
+                        decoded.add(t.id)
+        breaks = [n for n in ast.walk(lp) if isinstance(n, (ast.Break, ast.Return))]
+        for b in breaks:
+            conds = []
+            a = b
+            while a is not None and a is not lp:
+                p_ = getattr(a, "_parent", None)
+                if isinstance(p_, ast.If):
+                    conds.append(p_.test)
+                a = p_
+            names = {x.id for c in conds for x in ast.walk(c) if isinstance(x, ast.Name)}
+            calls = [x for c in conds for x in ast.walk(c) if isinstance(x, ast.Call) and isinstance(x.func, ast.Attribute) and x.func.attr == "decode"]
+            # guarded by isinstance(elem, str)?  (a str element comes from a text stream and is never decoded)
+            str_guard = any("isinstance" in norm(c) and "str" in norm(c) and not norm(c).startswith("not ") for c in conds)
+            bad = bool((names & decoded) or calls) and not str_guard
+            res.oblige("F2", f"decode_by_char: `{norm(conds[0], 50) if conds else 'unconditional'}` -> {type(b).__name__.lower()} "
+                             "does not take decoded text '' for the end of the stream", ok=not bad)
+            if bad:
+                res.add(Finding("F2", "__init__.decode_by_char", "end-of-stream test on decoded text",
+                                "decode_by_char leaves its read loop when the *decoded* text is empty; an incremental "
+                                "decoder returns '' for the first byte(s) of a multi-byte character, so the label is cut "
+                                "at the first non-ASCII character when read from a binary stream or URL",
+                                where=f"pvl/__init__.py:{b.lineno}"))
